@@ -75,19 +75,19 @@ Fixpoint W (n : nat) (l1 l2 : T) : list T :=
    level k holds, for m = 0..k, the nodes stored under the key 0^(k-m) 1^m.
    new_partial: key ending in 0 spawns key+(0,) and key+(1,); key ending in 1
    spawns key+(1,) only. *)
-Definition R (t : T) (v : list T) := dc_round (1 - t) t v.
-Definition spec_level1 (a b : T) (v : list T) : list (list T) := [R a v; R b v].
+Definition dcR (t : T) (v : list T) := dc_round (1 - t) t v.
+Definition spec_level1 (a b : T) (v : list T) : list (list T) := [dcR a v; dcR b v].
 Definition spec_next (a b : T) (lvl : list (list T)) : list (list T) :=
   match lvl with
   | [] => []
-  | p0 :: _ => R a p0 :: map (R b) lvl
+  | p0 :: _ => dcR a p0 :: map (dcR b) lvl
   end.
 Definition specialize (v : list T) (a b : T) : list T :=
   map (hd 0) (iter (spec_next a b) (length v - 2) (spec_level1 a b v)).
 
 (* node j of the specialised curve, as a blossom value *)
 Definition P (a b : T) (n j : nat) (v : list T) : T :=
-  hd 0 (iter (R b) j (iter (R a) (n - j) v)).
+  hd 0 (iter (dcR b) j (iter (dcR a) (n - j) v)).
 Definition L (a b : T) (n : nat) (v : list T) : list T := map (fun j => P a b n j v) (seq 0 (S n)).
 
 (* ---- make_subdivision_matrices: columns of `left` and `right` ---------------- *)
